@@ -55,6 +55,19 @@ def modules():
     f = m.define_function("uses", [])
     f.set_outputs(f.load(val.Function(inner.hugr)))
     out.append(("null-fields-and-function-const-metadata", m.hugr))
+
+    # general sums whose variant rows are all empty (Tuple(), Option(), Either([], []), Sum([[], []])): equal to unit sums as Python
+    # values but encoded as {"s": "General", "rows": [[], ...]}; in signatures, Input/Output rows, a constant and the MakeTuple op
+    m = Module()
+    empties = [tys.Tuple(), tys.Option(), tys.Either([], []), tys.Sum([[], [], []])]
+    f = m.define_function("empty_rows", empties)
+    t0, o0, e0, s0 = f.inputs()
+    mk = f.add_op(ops.MakeTuple(), )
+    c = f.load(val.Tuple())
+    tg = f.add_op(ops.Tag(1, tys.Sum([[], [], []])))
+    f.set_outputs(t0, o0, e0, s0, mk, c, tg)
+    m.declare_function("takes_empty", tys.PolyFuncType([], tys.FunctionType([tys.Option()], [tys.Tuple()])))
+    out.append(("all-empty-general-sums", m.hugr))
     return out
 
 
